@@ -426,6 +426,9 @@ class FnTr:
         return node
 
     def assigns_uncond(self, st, v):
+        if isinstance(st, ast.If) and st.orelse:       # assigned on every path through the statement that falls through
+            return all(self.terminates(b) or any(self.assigns_uncond(x, v) for x in b) for b in (st.body, st.orelse)) \
+                and not (self.terminates(st.body) and self.terminates(st.orelse))
         if isinstance(st, ast.Assign) and len(st.targets) == 1:
             t = st.targets[0]
             if isinstance(t, ast.Name):
@@ -533,7 +536,7 @@ class FnTr:
             head = new
         else:
             raise Unsupported(s, 'loop typing does not converge')
-        carried = [v for v in self.assigned_in(s.body) if v in head]
+        carried = sorted(v for v in self.assigned_in(s.body) if v in head)     # canonical: not the statement order
         return head, carried
 
     def assign_parts(self, s, env):
@@ -711,7 +714,7 @@ class FnTr:
         head, carried = self.loop_env(s, env)
         lname = '%s.loop%d' % (self.name, self.loop_no[id(s)])
         used = {n.id for n in ast.walk(s) if isinstance(n, ast.Name)}
-        fixed = [v for v in env if v not in carried and v in used and v in head]
+        fixed = sorted(v for v in env if v not in carried and v in used and v in head)
         fix_b = ' '.join('(%s : %s)' % (mangle(v), opt_ty(*head[v])) for v in fixed)
         car_t = [opt_ty(*head[v]) for v in carried]
         res_t = ' × '.join(car_t) if carried else 'Unit'
